@@ -12,6 +12,7 @@ import Vita.C08.Lemmas
 import Vita.C08.Laws
 import Vita.C08.LifeLemmas
 import Vita.C08.GenStorage
+import Vita.C08.Bridge
 import Vita.C05.Props
 
 namespace Vita.C08
@@ -314,6 +315,74 @@ theorem binary_evaluator_scores_model (d : List (TEx Rat)) :
   unfold binaryEvaluator
   rw [count_is_minus_misclassified]
   simp only [nWrong, List.filter_map, List.length_map]
+  rfl
+
+/-! ## it is the same function the TRAINING evaluator scored (C05's evaluators END TO END)
+
+  `Cls.dynSlotEvaluator`, `Cls.gaussianEvaluator`, `Cls.binaryEvaluator` are C05's models of
+  `*_evaluator::operator()` from the member programs' outputs to the fitness; `dynModels` /
+  `gaussModels` / `binModels` + `predict` are THIS file's model of what `lambdify(ind)` returns (one
+  classifier per member trained on the evaluator's dataset, winner takes all; one member = an
+  individual).  Bridge.lean proves the two classifier models equal definition by definition, for
+  every number type. -/
+
+/-- dyn-slot, individuals and teams: the evaluator's count of misclassified examples is
+    `#examples − #(training rows lambdify(ind) predicts right)` -/
+theorem dyn_evaluator_scores_lambdify (fns : Fns Rat) (classes xslot members : Nat) (d : List (Cls.TEx Rat)) :
+    (@Cls.dynSlotEvaluator Rat (numC fns) classes xslot members d).1 =
+      [ - (((d.length - nCorrect (dynModels fns classes xslot members d) d : Nat)) : Rat) ] := by
+  unfold Cls.dynSlotEvaluator
+  rw [dynTaggers_eq, tagAll_eq]
+  have h := count_is_minus_misclassified (scored (dynModels fns classes xslot members d) d)
+  rw [nWrong_scored] at h
+  have h2 := correct_add_mislabelled (dynModels fns classes xslot members d) d
+  have h3 : nMislabelled (dynModels fns classes xslot members d) d =
+      d.length - nCorrect (dynModels fns classes xslot members d) d := by omega
+  rw [← h3]; exact h
+
+/-- binary -/
+theorem bin_evaluator_scores_lambdify (fns : Fns Rat) (members : Nat) (d : List (Cls.TEx Rat)) :
+    (@Cls.binaryEvaluator Rat (numC fns) members d).1 =
+      [ - (((d.length - nCorrect (binModels members) d : Nat)) : Rat) ] := by
+  unfold Cls.binaryEvaluator
+  rw [binTaggers_eq, tagAll_eq]
+  have h := count_is_minus_misclassified (scored (binModels (F := Rat) members) d)
+  rw [nWrong_scored] at h
+  have h2 := correct_add_mislabelled (binModels (F := Rat) members) d
+  have h3 : nMislabelled (binModels (F := Rat) members) d = d.length - nCorrect (binModels members) d := by omega
+  rw [← h3]; exact h
+
+/-- Gaussian: the documented score `Σ (right ? (confidence − 1)/(classes − 1) : −1)` over the answers
+    of lambdify(ind) on the training set -/
+theorem gauss_evaluator_scores_lambdify (fns : Fns Rat) (classes members : Nat) (d : List (Cls.TEx Rat)) :
+    (@Cls.gaussianEvaluator Rat (numC fns) classes members d).1 =
+      [ ((scored (gaussModels fns classes members d) d).map (gaussTerm ((classes - 1 : Nat) : Rat))).sum ] := by
+  unfold Cls.gaussianEvaluator
+  rw [gaussTaggers_eq, tagAll_eq]
+  exact gaussian_score _ _
+
+/-- … for doubles too: the classifier the evaluator scores and the one lambdify returns are the same
+    function of (member outputs, labels), whatever the number type and the library functions -/
+theorem evaluator_classifier_is_lambdify {F} [NumN F] (fns : Fns F) (classes xslot members : Nat) (d : List (Cls.TEx F)) :
+    @Cls.tagAll F _ (@Cls.dynTaggers F (numC fns) classes xslot members d) d = scored (dynModels fns classes xslot members d) d ∧
+    @Cls.tagAll F _ (@Cls.gaussTaggers F (numC fns) classes members d) d = scored (gaussModels fns classes members d) d ∧
+    @Cls.tagAll F _ (Cls.binTaggers members) d = scored (binModels members) d := by
+  refine ⟨?_, ?_, ?_⟩
+  · rw [dynTaggers_eq, tagAll_eq]
+  · rw [gaussTaggers_eq, tagAll_eq]
+  · rw [binTaggers_eq, tagAll_eq]
+
+/-- the value `reg_lambda_f` returns for the member outputs of one example -/
+def regModel {F} [Num F] (team : Bool) (outs : List (Option F)) : Option F :=
+  if team then teamValue outs else regValue (outs.getD 0 none)
+
+/-- symbolic regression (mae / rmae / mse / count), individuals and teams: the fitness is minus the
+    mean of the documented error of the MODEL's value (what lambdify(ind) returns) on each example -/
+theorem reg_evaluator_scores_lambdify (k : ErrKind) (team : Bool) (d : List (List (Option Rat) × Rat)) (h : d ≠ []) :
+    (evalFull (errF k) (d.map (fun e => (⟨regModel team e.1, e.2, 0⟩ : Ex Rat)))).1 =
+      [ - ((d.map (fun e => errF k (regModel team e.1) e.2)).sum / (d.length : Rat)) ] := by
+  rw [fitness_full _ _ (by simpa using h)]
+  simp only [List.map_map, List.length_map]
   rfl
 
 /-! ## object lifetime (detail/lambda_f.h: `reg_lambda_f_storage`, the core of every model object) -/
